@@ -31,6 +31,9 @@ def plan(tier):
     if tier != 'quick':
         for order in range(6):
             I.append(inst(f"triangle[n=1,order={order}]", 'harness.c01', 'metric_laws', dict(n=1, law='triangle', order=order), weight=20, timeout_s=900))
+    # binary64 question (engine E1-fp): can d(p, p) be NaN?  H^1; solver portfolio under a hard cap (inconclusive if it does not finish)
+    I.append(inst("fp-d(x,x)-never-NaN[n=1]", 'symnp.fp', 'distance_self_nan', dict(n=1, bound=0.5), kind='fp',
+                  opts=dict(timeout_ms=(150000 if tier == 'quick' else 1500000)), timeout_s=(200 if tier == 'quick' else 1600), weight=50))
     return dict(
         instances=I,
         explanation=("bounded symbolic verification: hyperbolic.Point.coords / distance and the chart maps are executed symbolically "
